@@ -403,9 +403,13 @@ def c08_3(ctx: Ctx) -> RuleResult:
     if f is None:
         raise AnalysisError("masked-linear-constraints helper not found")
     rt = ctx.X.return_term(f)
-    if rt[0] != "tuple" or len(rt[1]) != 3:
+    from ..terms import ifexp_to_phi, phi as mkphi
+
+    tuples = [a for a in alts(ifexp_to_phi(rt))]
+    if not tuples or any(a[0] != "tuple" or len(a[1]) != 3 for a in tuples):
         raise AnalysisError("masked-linear-constraints helper does not return a 3-tuple")
-    coef, lo, up = rt[1]
+    # one (coefficients, lower, upper) triple per returning path: merge position-wise
+    coef, lo, up = (mkphi([a[1][i] for a in tuples]) for i in range(3))
 
     def is_mask(t):
         return ends_with_attrs(t, "variables", "mask")
@@ -439,8 +443,11 @@ def c08_3(ctx: Ctx) -> RuleResult:
     for name, t in (("lower", lo), ("upper", up)):
         good = False
         why = f"{name} bounds are returned as `{show(t, 140)}`"
-        if t[0] == "binop" and t[1] == "-":
-            b_alts, o_alts = alts(t[2]), alts(t[3])
+        talts = [a for a in alts(t)]
+        if talts and all(a[0] == "binop" and a[1] == "-" for a in talts):
+            b_alts = [x for a in talts for x in alts(a[2])]
+            o_alts = [x for a in talts for x in alts(a[3])]
+            t = ("binop", "-", mkphi(b_alts), mkphi(o_alts))
             b_masked = [a for a in b_alts if a[0] == "sub"]
             b_plain = [a for a in b_alts if a[0] != "sub"]
             o_masked = [_nrm(a) for a in o_alts if _nrm(a)[0] == "call"]
@@ -737,16 +744,26 @@ def c08_6(ctx: Ctx) -> RuleResult:
         if any(ctx.X.at(m, c.func) == ("global", "scipy.optimize.Bounds") for c in calls_in(m)):
             ib = m
     if ib is not None:
-        for n_ in nodes_in(ib, ast.If):
-            if any(isinstance(x, ast.Call) and ctx.X.at(ib, x.func) == ("global", "scipy.optimize.Bounds") for s_ in n_.body for x in ast.walk(s_)):
-                t = ctx.X.value_at(ib, n_.test)
-                bad = []
-                for lo_, up_ in itertools.product(("all", "mixed", "none"), repeat=2):
-                    v = eval_finiteness(t, {"lower": lo_, "upper": up_})
-                    if v is None or v != (not (lo_ == "none" and up_ == "none")):
-                        bad.append((lo_, up_, v))
-                res.add(ib, n_, "a Bounds object is handed to SciPy iff any variable bound is finite (same condition as the validation)", not bad,
-                        "" if not bad else f"Bounds are dropped / created for {bad[:3]}", construct=f"{ib.name}: Bounds condition")
+        from ..util import path_condition
+
+        bcalls = [x for x in calls_in(ib) if ctx.X.at(ib, x.func) == ("global", "scipy.optimize.Bounds")]
+        forms = []
+        for bc in bcalls:
+            st_ = bc
+            while parent(st_) is not None and not isinstance(st_, ast.stmt):
+                st_ = parent(st_)
+            # the part of the path condition that is about finiteness of the bounds (the rest selects mask / no mask)
+            parts = [(c_, p_) for c_, p_ in path_condition(ctx, ib, st_)
+                     if contains(c_, lambda s_: s_[0] == "call" and s_[1][0] == "global" and s_[1][1] in ("numpy.isfinite", "numpy.isinf", "numpy.isneginf", "numpy.isposinf"))]
+            forms.append(("bool", "and", tuple(c_ if p_ else ("unary", "not", c_) for c_, p_ in parts)) if parts else ("const", True))
+        bad = []
+        for lo_, up_ in itertools.product(("all", "mixed", "none"), repeat=2):
+            want = not (lo_ == "none" and up_ == "none")
+            vals = [eval_finiteness(fm, {"lower": lo_, "upper": up_}) if fm != ("const", True) else True for fm in forms]
+            if any(v is None for v in vals) or (want != any(vals)):
+                bad.append((lo_, up_, vals))
+        res.add(ib, bcalls[0] if bcalls else ib.node, "a Bounds object is handed to SciPy iff any variable bound is finite (same condition as the validation)", bool(bcalls) and not bad,
+                "" if bcalls and not bad else f"Bounds are dropped / created for {bad[:3]}", construct=f"{ib.name}: Bounds condition")
     res.floor = 13
     return res
 
